@@ -10,7 +10,16 @@ DRIVER_MODULE = "Driver.Treap"
 PROPS = "RlibModel.Props.C03"
 PROFILES = ["release", "debug"]   # debug: the same generators in smaller numbers against the debug build of rlib (cfg(debug_assertions), debug_assert!)
 SHRINK_SEP = ";"
-RULE = ("Wave 3: BOTH BUILD PROFILES — the same generators in smaller numbers also run against the debug build of rlib (cfg(debug_assertions), debug_assert!). "
+RULE = ("Wave 4 (seeded C03_m13): items that CARRY A PENDING MODIFICATION are handed to `insert_at` — `inserttag i k v p m` = Item::new(v), "
+        "modify(m), insert_at(k, it); `moveroot i take|clone j pos p` = the item at the root of the one-element treap i, read through the "
+        "public `root` field (taken out or cloned; it carries whatever was attached to that treap), goes to ts[j].insert_at(pos, it). In the "
+        "`own` stream these are the REAL insert_at calls with rlib's priorities (random histories: 2 rolls in 29 each; composed `root_move` = cut "
+        "one element out, tag it once or twice, put its root item back with insert_at); a third exhaustive scope runs the real insert_at of such "
+        "an item into treaps whose nodes have the priorities 0 / u32::MAX (every assignment [n]->{0,MAX}, n<=3, n<=5 thorough) x every position x "
+        "both sized items x 3 sources of the item, so the new node is linked ABOVE its MAX neighbours (gets children at insertion time) and below the "
+        "0 ones, followed by every pushing walk (collect, first, last, split_at, remove_at). In `ctl` the same operations run as insert_at's own "
+        "definition with the case's priority. "
+        "Wave 3: BOTH BUILD PROFILES — the same generators in smaller numbers also run against the debug build of rlib (cfg(debug_assertions), debug_assert!). "
         "cases are histories `C03 <item> <stream> ; op ; op …` on a vector of live treaps (ops: new, item, merge, splitat, splitby, insert, "
         "remove, first, last, collect, size, agg, tag, drop, and — round 3 — the operations that RE-USE what the API returned: `move` = "
         "remove_at then insert_at of the returned item (inside one treap or into another), `take` = Treap::from_item(remove_at(k)), `dup` = "
@@ -44,6 +53,10 @@ ASSUMPTIONS = [
     "fields, the model item `keyOnly` carries a ghost size maintained by its `update` (proved lawful); a clone of an INTERIOR node's item "
     "is not a fresh item (it carries its subtree's size/aggregate, on the unchanged rlib too), so `dup` only clones the only element of a "
     "treap (guard `size() <= 1` in harness, model and spec)",
+    "wave 4: an item that carries a pending modification and stands for ONE element (stored size 1, stored aggregate = aggregate of its own "
+    "element: a fresh item after `modify`, or the root item of a treap whose size() is 1) is inside the property's domain — the property's own words "
+    "'a modification lazily attached to a subtree root ends up applied to exactly that subtree's elements' (theorems tagged_singleton, insertTagged_seq, "
+    "rootItem_seq); the root item of a LARGER treap carries its subtree's size/aggregate and stays outside (guard `size() == 1` in harness, model and spec)",
     "magnitudes stay far below i64/i128 overflow (the harness is built with overflow-checks=true, so a wrap would show up as panic:overflow)",
     "`Box` moves / ownership are modelled as values; memory safety is rustc's",
 ]
@@ -53,7 +66,9 @@ MANIFEST = {
              "merge = ++, split_at = take/drop for every position, split_by = takeWhile/dropWhile for prefix-monotone predicates, "
              "insert_at / remove_at (the theorems also cover positions past the end, which the check treats as outside the stated domain; remove_at "
              "returns the item of a normalised one-node treap — size 1, aggregate of itself, no pending tag — which may be inserted again: "
-             "insertItem_seq, fromItem_seq, moveAt_seq), first/last/collect/size, the root aggregate is the in-order "
+             "insertItem_seq, fromItem_seq, moveAt_seq; an item that still CARRIES a pending modification — hand-built with new + modify, or read off the root of a "
+             "modified one-element treap — inserted with insert_at puts exactly its (modified) element at the position and modifies no neighbour, whatever "
+             "priority the new node draws: tagged_singleton, insertTagged_seq, rootItem_seq, rootItem_iff), first/last/collect/size, the root aggregate is the in-order "
              "fold of exactly that subsequence, a modifier attached at a root maps over exactly that tree's elements once and in "
              "attachment order, and `history_refines`: any history on any number of live treaps refines the same history on plain "
              "lists, observation for observation (the operation language includes moving / taking out / cloning returned items and "
@@ -67,7 +82,7 @@ MANIFEST = {
     "design_ref": "DESIGN.md §6 C03",
 }
 
-_RESTRUCT = ("merge", "splitat", "splitby", "insert", "remove", "move", "take")
+_RESTRUCT = ("merge", "splitat", "splitby", "insert", "remove", "move", "take", "inserttag", "moveroot")
 
 
 def nontrivial(case, rec):
